@@ -435,5 +435,7 @@ def run(ctx: Ctx) -> None:
     commit_rules(ctx, top, "C02.R7")
     if ctx.report.prop == "C02":
         from .common import share_rules as _share8
+        _share8(ctx, "C03", "C02.R16", ["C03.R2"], "nothing on the way to a signature is enumerated in the iteration order of a set (string hash randomisation): the same unchanged pipeline gets the same "
+                "signatures in the next process, and nothing is executed again")
         _share8(ctx, "C08", "C02.R15", ["C08.R14"], "the memory store reports a stored blob present whatever its value (membership, not a look-up of the value): a kept function that returns None is not executed again at every evaluation")
 
